@@ -7,6 +7,7 @@ NAME = 'SIM'
 SRC = '/repo/src/bloch/runtime/qasm_simulator.cpp'
 AST_FILTER = 'QasmSimulator'
 SHIM = 'sim.h'
+NAMESPACE = 'bloch::runtime'
 FUNCS = ['ensureQubitActive', 'allocateQubit', 'applySingleQubitGate', 'h', 'x', 'y', 'z', 'rx', 'ry', 'rz',
          'cx', 'reset', 'measure', 'getQasm']
 THROWING = {'ensureQubitActive', 'applySingleQubitGate', 'h', 'x', 'y', 'z', 'rx', 'ry', 'rz', 'cx', 'reset',
